@@ -131,6 +131,58 @@ def check_variant(run, nodes, data, ctx, detail, mode, scratch, intended):
     return m
 
 
+class TransportDown(RuntimeError):
+    """Raised by the harness transport below."""
+
+
+def check_transport_fault(run, base, k, detail, mode, scratch):
+    """The run is stopped by the TRANSPORT: publish() of the output of node k raises (a network transport losing its
+    link).  Nodes 0..k ran and succeeded: exactly k+1 SERs, all succeeded, in canonical order, one pipeline_end(error),
+    the transport's own exception object reaches the caller, the file is flushed and closed."""
+    import copy
+
+    from semantiva.execution.transport.in_memory import InMemorySemantivaTransport
+    from semantiva.pipeline.pipeline import Pipeline
+    from vlib import tracecheck as tc
+
+    boom = TransportDown("link lost")
+
+    class Flaky(InMemorySemantivaTransport):
+        def __init__(self):
+            super().__init__()
+            self.n = 0
+
+        def publish(self, *a, **kw):
+            self.n += 1
+            if self.n == k + 1:
+                raise boom
+            return super().publish(*a, **kw)
+
+    try:
+        pipe = Pipeline(copy.deepcopy(base["nodes"]), transport=Flaky())
+    except Exception:
+        return
+    tr = tc.traced_run(base["nodes"], base["data"], base["ctx"], detail=detail, mode=mode, scratch=scratch, pipeline=pipe)
+    run.count("traced_runs")
+    run.count("transport_fault_runs")
+    run.count("records_validated", len(tr.records))
+    witness = {"nodes": base["nodes"], "data": base["data"], "ctx": base["ctx"], "detail": detail, "mode": mode,
+               "intended_fault": ["transport_fault", k], "types": [r.get("record_type") for r in tr.records]}
+    if tr.real.ok:
+        run.count("transport_fault_not_reached")     # fewer publishes than nodes: nothing to check
+        shutil.rmtree(tr.tdir, ignore_errors=True)
+        return
+    for key, msg in tc.check_single_run_stream(tr.records, expect_sers=k + 1, returned=False, failing_node_has_ser=False):
+        run.violation(f"{key}@transport_fault", msg, witness)
+    for p in tr.problems:
+        run.violation("trace_file_damaged@transport_fault", p, witness)
+    if tr.open_fds:
+        run.violation("trace_file_left_open@transport_fault", f"descriptors still open: {tr.open_fds}", witness)
+    if tr.real.exc is not boom:
+        run.violation("exception_not_original@transport_fault", f"caller received {tr.real.exc!r}, the transport raised {boom!r}", witness)
+    shutil.rmtree(tr.tdir, ignore_errors=True)
+
+
 def run(run):
     boot.boot()
     from vlib import gen, refmodel as rm
@@ -159,6 +211,9 @@ def run(run):
                 mb = rm.run_pipeline(base["nodes"], base["data"], base["ctx"])
                 run.count("bases_with_exotic_parameter_value")
             n = len(base["nodes"])
+            if bases % 2 == 0:
+                for k in range(n):
+                    check_transport_fault(run, base, k, DETAILS[(combo + k) % len(DETAILS)], ("file", "dir")[k % 2], scratch)
             for i in range(n + 1):
                 for kind in KINDS:
                     if kind == "clean" and i > 0:
